@@ -24,6 +24,9 @@ FamilyLang(rootHas, m) ==
        Asset("R4", "R3", <<>>, Decl("R4", m[4], 4)),
        Asset("Sib", "R1", <<>>, Decl("Sib", m[5], 5)) >>,
     << AssocMany("Lk", "R0", "fl", "fr", "R0") >>)
+\* the same language with its assets DECLARED in another order (a language is a set of declarations)
+Orders == << <<1, 2, 3, 4, 5, 6>>, <<6, 5, 4, 3, 2, 1>>, <<4, 2, 5, 1, 6, 3>> >>
+Reordered(L, p) == [L EXCEPT !.assets = [i \in DOMAIN L.assets |-> L.assets[p[i]]]]
 Family == { FamilyLang(rh, m) : rh \in BOOLEAN, m \in [1..5 -> Modes] }
 
 VARIABLES lng, ops
@@ -36,7 +39,7 @@ ModeCode(m) == LET c(x) == CASE x = "absent" -> 0 [] x = "noreach" -> 1 [] x = "
 Init == lng = <<>> /\ ops = <<>>
 Pick == /\ lng = <<>> /\ \E rh \in BOOLEAN, m \in [1..5 -> Modes] :
                             /\ ModeCode(m) % Slices = SliceNo
-                            /\ lng' = FamilyLang(rh, m)
+                            /\ lng' = Reordered(FamilyLang(rh, m), Orders[1 + ((ModeCode(m) + (IF rh THEN 1 ELSE 0)) % 3)])
         /\ UNCHANGED ops
 \* LookupSM: none of the operations changes the language
 Lookup(T) == lng # <<>> /\ Len(ops) < MaxOps /\ ops' = Append(ops, [op |-> "Lookup", T |-> T]) /\ UNCHANGED lng
